@@ -12,34 +12,79 @@ P = {'id': 'C08',
               'untagged_aba_refuted',
               'narrow_generation_refuted',
               'treiber_aba_refuted',
-              'treiber_uaf_refuted'],
- 'trusted': ['modelled (M+S): src/memory/lockfree_pool.rs allocate_from_fast_bin / deallocate_to_fast_bin / allocate_new_block and src/memory/five_level_pool.rs '
-             'LockFreePool::alloc_from_fast_bin_lockfree / free_to_fast_bin_lockfree (one bin, generation-tagged head, link word inside the block, count, bump '
-             'allocation: load + compare-exchange of next_offset in lockfree_pool.rs, one step under the mutex in five_level_pool.rs) as a sequentially consistent small-step machine with one step per shared access; '
-             'src/memory/secure_pool.rs LockFreeStack::{push,pop} as a small-step machine over a heap whose allocator may reuse any free address (refutations only)',
-             'tie: #[cfg(zipora_verif)] schedule points before every shared access of those functions (src/memory/verif_sched.rs); real threads are parked at '
-             'every point by a baton scheduler, the schedule and every value the code observed (loaded heads, link words, exchange outcomes, bump offsets), the '
-             'final head/count/bump, the traversed free list and the blocks each thread holds are replayed in Coq against the model; hook placement is trusted '
-             'to cover every shared access of the modelled functions',
-             'spec-only cells (oracle on the real code, no mechanism model): FixedCapacityMemoryPool under controlled schedules, SecureMemoryPool (thread cache + '
-             'Treiber stack) under controlled schedules, free-running stress of LockFreeMemoryPool, five-level LockFreePool / MutexBasedPool / ThreadLocalPool, '
-             'FixedCapacityMemoryPool, SecureMemoryPool, the global secure size-class pools, MemoryPool (pool.rs)',
-             'not modelled: weak-memory effects (Relaxed/Acquire/Release are treated as sequentially consistent), spurious failure of compare_exchange_weak, the '
-             'retry bound max_cas_retries, the skip-list / huge-block paths (stubs in the code), mutex internals (each mutex-protected operation is atomic)'],
- 'assumptions': ['fewer than 2^32 successful compare-exchanges on one bin between a thread loading the head and its own exchange (stated in every positive theorem as '
-                 'ncas < gmod; narrow_generation_refuted shows it cannot be dropped)',
+              'treiber_uaf_refuted',
+              'fixedcap_no_double_owner',
+              'fixedcap_no_block_lost',
+              'fixedcap_free_lists_well_formed',
+              'fixedcap_holds_nodup',
+              'fixedcap_count_at_quiescence',
+              'fixedcap_stats_at_quiescence',
+              'fixedcap_generation_bound_by_steps',
+              'fixedcap_code_cfg_wf',
+              'fixedcap_untagged_refuted',
+              'tagged_generation_monotone',
+              'tagged_pop_last_keeps_generation',
+              'zero_on_free_never_touches_listed_block',
+              'counters_exact_at_quiescence',
+              'generation_reset_refuted',
+              'count_before_cas_refuted',
+              'zero_after_push_refuted',
+              'secure_concurrent_no_chunk_lost',
+              'secure_concurrent_no_double_owner',
+              'secure_concurrent_free_finds_its_chunk',
+              'secure_counters_at_quiescence',
+              'secure_concurrent_reuse_refuted',
+              'mempool_accounting_exact_at_quiescence',
+              'mempool_no_chunk_in_two_places'],
+ 'trusted': ['modelled (M+S): src/memory/lockfree_pool.rs allocate_from_fast_bin / deallocate_to_fast_bin / allocate_new_block / deallocate_with_zero and '
+             'src/memory/five_level_pool.rs LockFreePool::alloc_from_fast_bin_lockfree / free_to_fast_bin_lockfree (one bin, generation-tagged head, link word '
+             'inside the block, count, bump allocation: load + compare-exchange of next_offset in lockfree_pool.rs, one step under the mutex in '
+             'five_level_pool.rs) with the counters they report (fast_allocs, fast_deallocs, cas_successes, cas_failures, memory_usage; fragment_size) - '
+             'coq/C08/Model.v, ModelStats.v; src/memory/fixed_capacity_pool.rs allocate_from_free_list / allocate_by_splitting (recursion over the size '
+             'classes) / deallocate_to_free_list with the header magic check, secure_clear and the statistics - ModelFixedCap.v; src/memory/secure_pool.rs '
+             'allocate_with_hint / deallocate_internal / LockFreeStack::{push,pop} (thread caches, Treiber stack over a heap, next_generation, active table, '
+             'counters) - ModelSecure.v; src/memory/pool.rs MemoryPool::allocate / deallocate (try_lock queue, miss and direct-release paths, byte accounting, '
+             'counters) - ModelMemPool.v; all as sequentially consistent small-step machines with one step per shared access, any number of threads',
+             'tie: #[cfg(zipora_verif)] schedule points before every shared access of those functions (src/memory/verif_sched.rs; pool.rs: never inside the '
+             'stats write lock); real threads are parked at every point by a baton scheduler; the schedule, every value the code observed (loaded heads, link '
+             'words, exchange and try_lock outcomes, bump offsets, peeked heads, node addresses), the final heads / counts / free lists / stack / caches / '
+             'queue, the blocks each thread holds and the reported counters are replayed in Coq against the model (coq/C08/Cases.v); hook placement is trusted '
+             'to cover every shared access of the modelled functions; secure-pool chunks and pool.rs chunks are renamed to serial numbers in order of creation '
+             'by the harness',
+             'the theorems about SecureMemoryPool are for the model whose node allocator never hands out an address twice (s_reuse = false); the code runs on '
+             'malloc, which does (s_reuse = true: secure_concurrent_reuse_refuted, treiber_aba_refuted, treiber_uaf_refuted = the recorded findings); the '
+             'correspondence cases use s_reuse = true with the real node addresses',
+             'spec-only cells (oracle on the real code, no mechanism model): free-running stress of LockFreeMemoryPool (with and without zero_on_free), '
+             'five-level LockFreePool / MutexBasedPool / ThreadLocalPool, FixedCapacityMemoryPool, SecureMemoryPool, the global secure size-class pools, '
+             'MemoryPool and the global pool.rs pools',
+             'not modelled: weak-memory effects (Relaxed/Acquire/Release are treated as sequentially consistent), spurious failure of compare_exchange_weak, '
+             'the retry bound max_cas_retries and back-off, the skip-list / huge-block paths (stubs in the code), mutex / RwLock / DashMap internals (each '
+             'protected operation is atomic), FixedCapacityMemoryPool lazy initialisation, u64 overflow of stats.allocated, SecureChunk::validate (canaries), '
+             'clear()'],
+ 'assumptions': ['fewer than 2^32 successful compare-exchanges on one bin (all classes together for FixedCapacityMemoryPool) - stated in every positive '
+                 'theorem about a tagged list as ncas < gmod / fnc < fc_gmod; narrow_generation_refuted shows it cannot be dropped',
+                 'SecureMemoryPool: stack node addresses are not recycled while the pool lives (s_reuse c = false) - stated in the secure_concurrent_* '
+                 'theorems; secure_concurrent_reuse_refuted shows it cannot be dropped, and the code does not satisfy it (recorded findings)',
                  'sequential consistency',
-                 'agreement of model and code is established on the explored schedules only (enumerated windows + random programs/schedules)'],
- 'level_text': 'Machine-checked Coq theorems about a small-step model of the generation-tagged lock-free free list used by LockFreeMemoryPool and (since the fix '
-               'made by this check) the five-level LockFreePool: for any number of threads, any operation sequences, any interleaving of the individual shared '
-               'accesses, and owners overwriting the link word of their blocks at will, as long as the 32-bit generation has not wrapped: no block is ever in two '
-               'threads\' hands, the free list is finite, duplicate-free, inside the carved arena and disjoint from every thread\'s blocks, every carved block is '
-               'in exactly one place (no block lost, a freed block available exactly once), and the reported count equals the list length at quiescence. '
-               'Refutation theorems show that the same machine without a generation (the five-level and fixed-capacity heads before the fix), with a wrapped '
-               'generation, and the node-based Treiber stack of SecureMemoryPool (ABA and use-after-free) violate the property. The model is tied to the code by '
-               'running real threads under explicit schedules through schedule-point hooks and replaying every observation in Coq. The remaining pools are '
-               'decided by the ownership/free-list/counter oracle under controlled schedules or stress only (S-only).',
+                 'agreement of model and code is established on the explored schedules only (enumerated windows, stalled-operation windows, random '
+                 'programs/schedules)'],
+ 'level_text': 'Machine-checked Coq theorems about small-step models of five pools, each for any number of threads, any operation sequences and any '
+               'interleaving of the individual shared accesses: (1) the generation-tagged lock-free free list of LockFreeMemoryPool and the five-level '
+               'LockFreePool (owners may overwrite link words, deallocate_with_zero scrubs before it pushes): no block in two hands, free list finite / '
+               "duplicate-free / inside the arena / disjoint from the threads' blocks, every carved block in exactly one place, generation never decreasing "
+               '(also when a pop empties the list), the scrub never touches a listed block, and all reported counters exact at quiescence; (2) '
+               'FixedCapacityMemoryPool with one tagged list per size class, class-to-class splitting and the header magic check: the same ownership / '
+               'conservation / well-formedness / count theorems over all classes, statistics exact; (3) SecureMemoryPool (thread caches, Treiber stack over a '
+               'heap, generation, active table): every chunk in exactly one place, no double owner, frees always find their chunk, counters add up - for a '
+               'node allocator that does not recycle addresses, with the refutation for malloc-style reuse (the recorded ABA / use-after-free findings); (4) '
+               'MemoryPool (pool.rs): byte accounting exact at quiescence, counters, lock free, capacity, chunk uniqueness. Refutation theorems show that each '
+               'protocol detail seeded as a regression (no generation, wrapped generation, generation reset on empty, counting before the exchange, scrubbing '
+               'after the push) breaks the property. Every model is tied to the code by running real threads under explicit schedules through schedule-point '
+               'hooks and replaying every observation in Coq. The free-running stress cells are decided by the ownership / free-list / counter oracle only '
+               '(S-only).',
  'level_note': 'Trusted: Coq kernel + vm_compute; hand-written model; hook placement; baton scheduler and oracle in the harness; sequential consistency.',
- 'technique': 'Coq proof of an inductive invariant of a concurrent small-step semantics (ghost free list + ghost exchange counter), refutations by vm_compute on explicit '
-              'schedules; correspondence by deterministic replay of real threads under a controlled scheduler, evaluated in Coq; ownership-table oracle and stress',
- 'explanation': 'Unbounded theorems for the tagged free-list stack; S-only oracle for the other pools.'}
+ 'technique': 'Coq proofs of inductive invariants of concurrent small-step semantics (ghost free lists, ghost exchange counters, occurrence counting of chunks '
+              'over thread table + shared structure), refutations by vm_compute on explicit schedules; correspondence by deterministic replay of real threads '
+              'under a controlled scheduler, evaluated in Coq; ownership-table oracle and stress',
+ 'explanation': 'Unbounded theorems for the tagged free-list stacks (lock-free, five-level, fixed-capacity), the secure pool bookkeeping modulo node reuse, '
+                'and pool.rs accounting; S-only oracle for the stress cells.'}
